@@ -470,6 +470,12 @@ impl SATSolver {
             .difference(&self.state_stack[self.state_stack.len() - 2].model)
     }
 
+    /// the current partial model (verification hook, read-only)
+    #[cfg(feature = "verif")]
+    pub fn verif_model(&self) -> &PartialModel {
+        &self.top_state().model
+    }
+
     pub fn cur_hash(&self) -> u128 {
         self.top_state().hash
     }
